@@ -100,8 +100,21 @@ impl Prop for C11 {
             schedule_strategy(tier.pick(40, 100) as usize),
             drain_sz(),
             drain_sz(),
+            0u8..10,
         )
-            .prop_map(|(spec, gens, in_pages, out_pages, schedule, drain_feed, drain_free)| {
+            .prop_map(|(spec, mut gens, mut in_pages, mut out_pages, schedule, mut drain_feed, mut drain_free, big)| {
+                if big == 0 {
+                    // one case in ten: 64-page streams and 36 000+ samples delivered generously, so
+                    // that a single work() call produces well over 4096 outputs even when
+                    // decimating by 8 (per-call batching inside a kernel)
+                    in_pages = 64;
+                    out_pages = 64;
+                    for g in gens.iter_mut() {
+                        g.len = 36_000 + g.len % 12_000;
+                    }
+                    drain_feed = crate::ring::Sz::All;
+                    drain_free = crate::ring::Sz::All;
+                }
                 C11Case::Block(DripCase { spec, gens, tag_every: 0, in_pages, out_pages, schedule, drain_feed, drain_free, close_early: false, lopsided: false })
             });
         let kernel = (tapspec_strategy(200), finite_gen(2000), 1u8..9).prop_map(|(taps, input, deci)| C11Case::Kernel { taps, input, deci });
@@ -137,7 +150,7 @@ impl Prop for C11 {
     }
     fn rule(&self) -> String {
         format!(
-            "generated: FirFilter<f32|Complex> (1-200 taps: random, windowed-sinc, impulse, moving average; decimation 1-8), FftFilter, FftFilterFloat, Hilbert, SinglePoleIirFilter, QuadratureDemod, FastFM under drip schedules (all chunkings), Fir::filter/filter_n/filter_float on identical data, IirFilter::filter/filter_clamped, low_pass/low_pass_complex x 4 window types; inputs random/impulse/step/sinusoid, finite, |x| <= 1e3, length 0..6k (thorough 20k). Oracle: f64 reference computations of the defining formulas (FIR block output k = sum taps[j] x[k*deci+ntaps-1-j]; FFT filter y[k] = sum taps[j] x[k-j] with zero pre-history, hence FIR[k] == FFT[k+ntaps-1]; float variant = real part; IIR recurrences with a running rounding-error bound; QuadDemod = gain*arg(s*conj(prev)), with 0 or +-gain*pi where the product is exactly zero (gated inputs); FastFM's difference formula bit-exactly; Hilbert = (delayed input, FIR of the defining Hilbert taps - computed by the harness: window/n on odd offsets, antisymmetric, unit gain at fs/4 - which fir::hilbert() must also return); low_pass taps symmetric with unit DC gain). Stated tolerance, not tuned per case: |err| <= 64*eps32*sum|t|*max|x| for direct forms, <= 16*eps32*log2(fft_size)*sum|t|*max|x| + 1e-30 for FFT paths; exact output counts. Build variant: {} (the thorough tier also runs a build with -C target-feature=+avx,+sse3 so that the AVX dot product is the one under test). Non-trivial: >= 2 taps and input longer than one FFT block / FIR window with a chunk boundary inside (drip run with > 3 work calls); distinct = hash of the case.",
+            "generated: FirFilter<f32|Complex> (1-200 taps: random, windowed-sinc, impulse, moving average; decimation 1-8), FftFilter, FftFilterFloat, Hilbert, SinglePoleIirFilter, QuadratureDemod, FastFM under drip schedules (all chunkings), Fir::filter/filter_n/filter_float on identical data, IirFilter::filter/filter_clamped, low_pass/low_pass_complex x 4 window types; inputs random/impulse/step/sinusoid, finite, |x| <= 1e3, length 0..6k (thorough 20k) on 1-4 page streams, and in one case of ten 36-48k samples through 64-page streams delivered at once (single calls with well over 4096 outputs). Oracle: f64 reference computations of the defining formulas (FIR block output k = sum taps[j] x[k*deci+ntaps-1-j]; FFT filter y[k] = sum taps[j] x[k-j] with zero pre-history, hence FIR[k] == FFT[k+ntaps-1]; float variant = real part; IIR recurrences with a running rounding-error bound; QuadDemod = gain*arg(s*conj(prev)), with 0 or +-gain*pi where the product is exactly zero (gated inputs); FastFM's difference formula bit-exactly; Hilbert = (delayed input, FIR of the defining Hilbert taps - computed by the harness: window/n on odd offsets, antisymmetric, unit gain at fs/4 - which fir::hilbert() must also return); low_pass taps symmetric with unit DC gain). Stated tolerance, not tuned per case: |err| <= 64*eps32*sum|t|*max|x| for direct forms, <= 16*eps32*log2(fft_size)*sum|t|*max|x| + 1e-30 for FFT paths; exact output counts. Build variant: {} (the thorough tier also runs a build with -C target-feature=+avx,+sse3 so that the AVX dot product is the one under test). Non-trivial: >= 2 taps and input longer than one FFT block / FIR window with a chunk boundary inside (drip run with > 3 work calls); distinct = hash of the case.",
             variant()
         )
     }
